@@ -39,10 +39,17 @@ def build_template(ctx):
     shutil.copytree(os.path.join(root, "chk00005"), os.path.join(root, "chk_runs", "sim00100"))
     with open(os.path.join(root, "rec.py"), "w") as f:
         f.write(tools.USER_RECIPE)
+    # the plotfile of the same step beside the checkpoint (holds the species names a conversion can take from it)
+    q5 = dict(p); q5["fields"] = ["density"] + [f"Y({s})" for s in ["H2", "O2", "N2", "H2O", "OH"][:c["nspec"]]]
+    q5["data"] = {"mode": "smallint", "seed": 79}
+    plotgen.materialize(q5, os.path.join(root, "plt00007"))
+    shutil.copytree(os.path.join(root, "chk00005"), os.path.join(root, "chk00007"))
+    # a plotfile named like the result of an earlier recipe
+    shutil.copytree(os.path.join(root, "plt00010"), os.path.join(root, "plt00050_ck"))
     return root
 
 
-INPUTS = ["plt00010", "plt00020", "plt00040", "plt2d00030", "chk00005", "restart7", "chk_runs/sim00100"]
+INPUTS = ["plt00010", "plt00020", "plt00040", "plt2d00030", "chk00005", "restart7", "chk_runs/sim00100", "chk00007", "plt00007", "plt00050_ck"]
 
 
 def form_path(root, name, form):
@@ -75,6 +82,8 @@ def invocations():
                 "plt00040", ["explicit-abs"]))
     inv.append(("chef", lambda r, f, o: tools.chef(P(r, "plt00010", f), os.path.join(r, "rec.py"), O(r, o, "out_ck"), kept="temp"),
                 "plt00010", ["explicit-rel", "default"]))
+    inv.append(("chef-oncooked", lambda r, f, o: tools.chef(P(r, "plt00050_ck", f), os.path.join(r, "rec.py"), O(r, o, "out_ck"), kept="temp"),
+                "plt00050_ck", ["default"]))
     inv.append(("chef-serial", lambda r, f, o: tools.chef(P(r, "plt00010", f), os.path.join(r, "rec.py"), O(r, o, "out_cks"), serial=True),
                 "plt00010", ["explicit-abs", "default"]))
     inv.append(("mandoline-array", lambda r, f, o: tools.mandoline(P(r, "plt00010", f), "array", O(r, o, "out_arr"), ["density"], 2),
@@ -87,6 +96,8 @@ def invocations():
                 "plt00010", ["explicit-rel", "default"]))
     inv.append(("chk2plt", lambda r, f, o: tools.chk2plt(P(r, "chk00005", f), O(r, o, "out_plt")),
                 "chk00005", ["explicit-rel", "default"]))
+    inv.append(("chk2plt-ref", lambda r, f, o: tools.chk2plt(P(r, "chk00007", f), O(r, o, "out_plt"), ref=P(r, "plt00007", f)),
+                "chk00007", ["explicit-rel"]))
     inv.append(("chk2plt-noname", lambda r, f, o: tools.chk2plt(P(r, "restart7", f), O(r, o, "out_plt")),
                 "restart7", ["default"]))
     inv.append(("chk2plt-parentchk", lambda r, f, o: tools.chk2plt(P(r, "chk_runs/sim00100", f), O(r, o, "out_plt")),
@@ -122,6 +133,12 @@ FAILING = [
     ("mandoline-unknown-field-list", None, lambda r: tools.mandoline("plt00010", "array", "out_x", ["small_scales"], 2)),
     ("mandoline-cli-unknown-field", None, lambda r: tools.mandoline_cli("plt00010", "array", "out_x", ["wall_temp"], 0)),
     ("colander-cli-limit-above", None, lambda r: tools.colander_cli("plt00010", "out_col", ["temp"], 7)),
+    # a misspelt name among valid ones
+    ("mandoline-unknown-among-known", None, lambda r: tools.mandoline("plt00010", "array", "out_x", ["density", "tmep", "temp"], 0)),
+    ("mandoline-cli-unknown-among-known", None, lambda r: tools.mandoline_cli("plt00010", "plotfile", "out_x", ["temp", "no_such", "grid_level"], 1)),
+    # the default output of the conversion is the reference plotfile of the same step / the reference is named as output
+    ("chk2plt-default-is-reference", None, lambda r: tools.chk2plt("chk00007", None, ref="plt00007")),
+    ("chk2plt-output-is-reference", None, lambda r: tools.chk2plt("chk00007", "plt00007/", ref="plt00007")),
     ("pestle-unknown-field", None, lambda r: tools.pestle("plt00010", "no_such_field")),
     ("whip-unknown-field", None, lambda r: tools.whip("plt00010", "no_such_field", "out_g")),
     ("chef-unknown-recipe", None, lambda r: tools.chef("plt00010", "NOPE", "out_ck")),
